@@ -31,16 +31,16 @@ import (
 func c13PipelineDoc(g *zz.Gen, r *vfRand) map[string]interface{} {
 	httpKinds := []string{"Proxy", "Proxy", "RateLimiter", "Validator", "RequestAdaptor", "ResponseAdaptor", "Mock", "Fallback",
 		"CORSAdaptor", "RequestBuilder", "ResponseBuilder", "HeaderToJSON", "CertExtractor", "MeshAdaptor"}
-	all := zz.FilterKinds()
+	if r.Chance(1, 12) {
+		// an MQTT pipeline (MQTTProxy back end): MQTT filter kinds only, MQTT packets as requests
+		httpKinds = []string{"ConnectControl", "TopicMapper", "MQTTClientAuth", "KafkaMQTT"}
+	}
 	n := r.PickInt(0, 1, 1, 2, 2, 3)
 	var fs []interface{}
 	var names []string
 	var kinds []string
 	for i := 0; i < n; i++ {
 		k := httpKinds[r.Intn(len(httpKinds))]
-		if r.Chance(1, 12) {
-			k = all[r.Intn(len(all))]
-		}
 		d := g.GenDoc("filter", k)
 		if !r.Chance(1, 8) {
 			d["name"] = fmt.Sprintf("f%d", i+1)
@@ -141,8 +141,14 @@ func c13ObservePipeline(in *zz.In, inst bool) *zz.Obs {
 		obs.Norm, _ = zz.NormDoc(ospec)
 		zz.RecordValidate(ospec, obs)
 		trees = append(trees, obs.Norm)
+		for _, f := range ospec.Filters {
+			trees = append(trees, zz.NestedNorm("filter", f))
+		}
+		for _, r := range ospec.Resilience {
+			trees = append(trees, zz.NestedNorm("resilience", r))
+		}
 	}
-	in.Orc = zz.ComputeOrc(reflect.TypeOf(&Spec{}), trees...)
+	in.Orc = zz.ComputeOrcP(zz.AllPatterns(), trees...)
 	skip := ""
 	if ospec != nil {
 		for _, f := range ospec.Filters {
@@ -228,7 +234,20 @@ func c13Gen(r *vfRand, i int, adv bool) *zz.In {
 		in.Cat, in.Kind = "object", "Pipeline"
 		in.Doc = c13PipelineDoc(g, r)
 	}
-	in.Reqs = zz.DefaultReqs(g, in.Kind, in.Doc)
+	rk := in.Kind
+	if in.Kind == "Pipeline" {
+		// requests of the protocol the pipeline's filters speak
+		if fs, ok := in.Doc.(map[string]interface{})["filters"].([]interface{}); ok {
+			for _, f := range fs {
+				if m, ok := f.(map[string]interface{}); ok {
+					if k, ok := m["kind"].(string); ok && zz.MQTTKinds[k] {
+						rk = k
+					}
+				}
+			}
+		}
+	}
+	in.Reqs = zz.DefaultReqs(g, rk, in.Doc)
 	return in
 }
 
